@@ -185,7 +185,14 @@ fn check_formula(f: &F, only: Option<&'static str>, sink: &mut Sink) {
     if want(CL_ID_OTHER) {
         check_one(f, CL_ID_OTHER, (0, 0), sink, &mut tally, true);
     }
-    if want(CL_TRANSLATE) {
+    // An external reference ([1]Sheet1!B2) is a relative reference too: translating it is legitimate, but the
+    // reference model keeps bracketed leaves opaque, so the translate clause is not evaluated for them
+    // (identity clauses are).
+    let has_external = formula_tags(f).iter().any(|t| *t == "external-ref");
+    if has_external && want(CL_TRANSLATE) {
+        sink.count("translate_skipped_external_ref", 1);
+    }
+    if want(CL_TRANSLATE) && !has_external {
         for (i, mv) in moves_for(f).into_iter().enumerate() {
             check_one(f, CL_TRANSLATE, mv, sink, &mut tally, i < 4);
         }
